@@ -215,7 +215,7 @@ pub fn run(args: &[String]) {
     }
     // ---- timing and imaginary literals, booleans
     // small numbers, and integers of every magnitude up to 2^128-1 in several spellings
-    let mut nums: Vec<(String, bool)> = [("10", true), ("0", true), ("2_5", true), ("1.5", false), ("3.", false), ("1e3", false)].iter().map(|(a, b)| (a.to_string(), *b)).collect();
+    let mut nums: Vec<(String, bool)> = [("10", true), ("0", true), ("2_5", true), ("1.5", false), ("3.", false), ("1e3", false), (".5", false), (".25e1", false), ("1E-3", false), ("2.5e+2", false), ("1_0.5", false)].iter().map(|(a, b)| (a.to_string(), *b)).collect();
     for bits in [31u32, 32, 33, 53, 63, 64, 65, 100, 127, 128] {
         let v: u128 = if bits == 128 { u128::MAX } else { (1u128 << bits) + 1 };
         nums.push((v.to_string(), true));
